@@ -84,11 +84,21 @@ impl DevSpec {
             DevSpec::GearTeeth(t) => {
                 // the documented reading: first/last with sign (-1)^(gears-1)
                 let n = t.len();
-                let r = t[0] as f32 / t[n - 1] as f32;
+                let r = tooth(t[0]) / tooth(t[n - 1]);
                 Some(if (n - 1) % 2 == 1 { -r } else { r })
             }
             _ => None,
         }
+    }
+}
+
+/// A tooth-list entry of a plan: a small integer is that count; anything from 2^20 up is the bit
+/// pattern of an f32 (the constructor takes f32s, so 12.5 or 35.999996 are legal entries).
+pub fn tooth(v: u32) -> f32 {
+    if v < (1 << 20) {
+        v as f32
+    } else {
+        f32::from_bits(v)
     }
 }
 
@@ -268,7 +278,7 @@ pub fn build_dev<'a>(spec: &DevSpec, plan: &Plan) -> Dev<'a> {
             }
         }
         DevSpec::GearTeeth(t) => {
-            let f = |i: usize| t[i] as f32;
+            let f = |i: usize| tooth(t[i]);
             Dev::Gear(match t.len() {
                 2 => GearTrain::new([f(0), f(1)]),
                 3 => GearTrain::new([f(0), f(1), f(2)]),
